@@ -94,7 +94,7 @@ def prints_of(f):
 def run(rep, ctx):
     repo = ctx["repo"]
     _REPO[0] = repo
-    jobs = [dict(unit=WU, fn=[r"mp::WriteSolFile", r"mp::internal::(WriteSuffixes|WriteMessage)", r"mp::internal::SuffixValueWriter::.*",
+    jobs = [dict(unit=WU, closure=1, closure_roots=r"mp::internal::WriteSuffixes$", fn=[r"mp::WriteSolFile", r"mp::internal::(WriteSuffixes|WriteMessage)", r"mp::internal::SuffixValueWriter::.*",
                               r"mp::internal::SuffixValueCounter::.*", r"mp::BasicSuffix::VisitValues", r"mp::Suffix::VisitValues"],
                  var=[r"mp::internal::SUFFIX_KIND_MASK"], enum=[r"mp::suf::.*", r"mp::internal::.*"], repo=repo),
             dict(unit="src/sol.cc", fn=[r"mp::internal::WriteMessage"], repo=repo),
@@ -120,6 +120,12 @@ def run(rep, ctx):
     RD = one("mp::Read", lambda f: f.params and "double &" in (f.params[2].get("t") or ""))
     RP = one("mp::Read", lambda f: f.params and "pair" in (f.params[2].get("t") or ""))
 
+    if len(prints_of(WS)) < 2:
+        # the per-suffix part may live in a helper WriteSuffixes calls for every suffix: that helper is the writer analysed
+        cands = [F._by_id.get(c_.get("calleeId")) for c_ in WS.walk() if c_["k"] in ("CallExpr", "CXXMemberCallExpr")]
+        cands = [g_ for g_ in cands if g_ is not None and g_.cfg is not None and len(prints_of(g_)) >= 2]
+        if len(cands) == 1:
+            WS = cands[0]
     wp = prints_of(W)
     sp = prints_of(WS)
     if len(wp) < 6 or len(sp) < 2:
